@@ -291,6 +291,18 @@ def _shape(seq):
     return tuple((a[0], a[1] if not isinstance(a[1], (str, frozenset)) else "?") if a[0] != "loop" else ("loop",) for a in seq)
 
 
+def subsume(paths):
+    """a path that is another path of the set with one loop left out is that path with zero iterations (`if let
+    Some((first, rest)) = xs.split_first() { .. for x in rest {..} }` versus `for x in xs {..}`): it adds nothing"""
+    def without_one_loop(p):
+        for i, a in enumerate(p):
+            if a[0] == "loop":
+                yield p[:i] + p[i + 1:]
+    paths = set(paths)
+    sub = {p for p in paths if any(q == p for o in paths if o != p for q in without_one_loop(o))}
+    return frozenset(paths - sub)
+
+
 def canon(paths, keep_names=False):
     """canonical, comparable form: set of renamed paths; also returns the binding used per path"""
     out = set()
@@ -301,6 +313,7 @@ def canon(paths, keep_names=False):
         r = _rename(s, names)
         out.add(r)
         bindings[r] = {v: k for k, v in names.items()}
+    out = set(subsume(out))
     return (frozenset(out), bindings) if keep_names else frozenset(out)
 
 
